@@ -31,8 +31,8 @@ func Now() Time {
 	return rtime.Now()
 }
 
-func Since(t Time) Duration { return Now().Sub(t) }
-func Until(t Time) Duration { return t.Sub(Now()) }
+func Since(t Time) Duration     { return Now().Sub(t) }
+func Until(t Time) Duration     { return t.Sub(Now()) }
 func Unix(sec, nsec int64) Time { return rtime.Unix(sec, nsec) }
 
 type Month = rtime.Month
@@ -189,3 +189,24 @@ func (t *Ticker) Stop() {
 		t.real.Stop()
 	}
 }
+
+func Tick(d Duration) <-chan Time { return NewTicker(d).C }
+
+func (t *Ticker) Reset(d Duration) {
+	if t.real != nil {
+		t.real.Reset(d)
+	}
+}
+
+func Parse(layout, value string) (Time, error) { return rtime.Parse(layout, value) }
+func Date(year int, month Month, day, hour, min, sec, nsec int, loc *Location) Time {
+	return rtime.Date(year, month, day, hour, min, sec, nsec, loc)
+}
+
+var Local = rtime.Local
+
+const (
+	January  = rtime.January
+	Kitchen  = rtime.Kitchen
+	DateTime = "2006-01-02 15:04:05"
+)
